@@ -13,6 +13,27 @@ theorem publish_fst (s : State) (now : Nat) :
 theorem publish_snd (s : State) (now : Nat) :
     (publish s now).2 = { id := s.fdtid, time := now, inst := instanceAt s now } := rfl
 
+theorem tryPublish_cases (s : State) (now : Nat) :
+    (s.cfg.fdtFits (instanceAt s now) = false ∧ tryPublish s now = (s, [])) ∨
+    (s.cfg.fdtFits (instanceAt s now) = true ∧ tryPublish s now = ((publish s now).1, [(publish s now).2])) := by
+  unfold tryPublish
+  cases h : s.cfg.fdtFits (instanceAt s now) <;> simp
+
+theorem tryPublish_cfg (s : State) (now : Nat) : (tryPublish s now).1.cfg = s.cfg := by
+  rcases tryPublish_cases s now with ⟨_, h⟩ | ⟨_, h⟩ <;> rw [h] <;> rfl
+theorem tryPublish_files (s : State) (now : Nat) : (tryPublish s now).1.files = s.files := by
+  rcases tryPublish_cases s now with ⟨_, h⟩ | ⟨_, h⟩ <;> rw [h] <;> rfl
+theorem tryPublish_nextToi (s : State) (now : Nat) : (tryPublish s now).1.nextToi = s.nextToi := by
+  rcases tryPublish_cases s now with ⟨_, h⟩ | ⟨_, h⟩ <;> rw [h] <;> rfl
+theorem tryPublish_mem (s : State) (now : Nat) (p : Pub) (hp : p ∈ (tryPublish s now).2) : p = (publish s now).2 := by
+  rcases tryPublish_cases s now with ⟨_, h⟩ | ⟨_, h⟩
+  · rw [h] at hp; simp at hp
+  · rw [h] at hp; simpa using hp
+theorem tryPublish_nopub (s : State) (now : Nat) (h : (tryPublish s now).2 = []) : (tryPublish s now).1 = s := by
+  rcases tryPublish_cases s now with ⟨_, h2⟩ | ⟨_, h2⟩
+  · rw [h2]
+  · rw [h2] at h; simp at h
+
 theorem popQueue_cfg (s : State) : (popQueue s).cfg = s.cfg := by unfold popQueue; split <;> rfl
 theorem popQueue_fdtid (s : State) : (popQueue s).fdtid = s.fdtid := by unfold popQueue; split <;> rfl
 theorem popQueue_lastPublish (s : State) : (popQueue s).lastPublish = s.lastPublish := by unfold popQueue; split <;> rfl
@@ -34,22 +55,32 @@ theorem step_pubs (s : State) (op : Op) :
     · split <;> simp
   | remove t =>
     left; simp only [step, remove]; split <;> simp
-  | publish now => right; exact ⟨(publish s now).2, by simp [step, publish, Spec.Fdt.opTime]⟩
+  | publish now =>
+    simp only [step]
+    rcases tryPublish_cases s now with ⟨_, h⟩ | ⟨_, h⟩
+    · left; rw [h]; exact ⟨rfl, rfl, rfl⟩
+    · right; rw [h]; exact ⟨(publish s now).2, rfl, rfl, rfl, rfl, rfl⟩
   | setComplete => left; simp [step, setComplete]
   | tstart t now =>
     simp only [step, tstart]
     split
     · cases hm : s.cfg.mode with
-      | beingTransferred => right; simp [publish, Spec.Fdt.opTime]
+      | beingTransferred =>
+        simp only
+        rcases tryPublish_cases { s with files := s.files.map (fStart t) } now with ⟨_, h⟩ | ⟨_, h⟩
+        · left; rw [h]; exact ⟨rfl, rfl, rfl⟩
+        · right; rw [h]; exact ⟨_, rfl, rfl, rfl, rfl, rfl⟩
       | fullFdt => left; simp
     · left; simp
   | tdone t now => left; simp [step, tdone]
   | poll now =>
     simp only [step, poll]
     by_cases h : needRepublish s now = true
-    · right
-      simp only [h, if_true]
-      exact ⟨(publish s now).2, rfl, rfl, by rw [popQueue_fdtid]; rfl, by rw [popQueue_lastPublish]; rfl, rfl⟩
+    · simp only [h, if_true]
+      rcases tryPublish_cases s now with ⟨_, h2⟩ | ⟨_, h2⟩
+      · left; rw [h2]; exact ⟨rfl, popQueue_fdtid s, popQueue_lastPublish s⟩
+      · right; rw [h2]
+        exact ⟨(publish s now).2, rfl, rfl, by rw [popQueue_fdtid]; rfl, by rw [popQueue_lastPublish]; rfl, rfl⟩
     · left
       simp only [h]
       exact ⟨rfl, popQueue_fdtid s, popQueue_lastPublish s⟩
@@ -58,14 +89,20 @@ theorem step_cfg (s : State) (op : Op) : (step s op).1.cfg = s.cfg := by
   cases op with
   | add a => simp only [step, add]; split; rfl; split <;> rfl
   | remove t => simp only [step, remove]; split <;> rfl
-  | publish now => rfl
+  | publish now => exact tryPublish_cfg s now
   | setComplete => rfl
-  | tstart t now => simp only [step, tstart]; split; (split <;> rfl); rfl
+  | tstart t now =>
+    simp only [step, tstart]
+    split
+    · split
+      · exact tryPublish_cfg _ now
+      · rfl
+    · rfl
   | tdone t now => rfl
   | poll now =>
     simp only [step, poll]
     by_cases h : needRepublish s now = true
-    · simp only [h, if_true]; rw [popQueue_cfg]; rfl
+    · simp only [h, if_true]; rw [popQueue_cfg]; exact tryPublish_cfg s now
     · simp only [h]; exact popQueue_cfg s
 
 theorem run_cfg (s : State) (ops : List Op) : (run s ops).1.cfg = s.cfg := by
@@ -126,21 +163,21 @@ theorem step_pub_expires (s : State) (op : Op) (p : Pub) (hp : p ∈ (step s op)
   cases op with
   | add a => simp [step] at hp
   | remove t => simp [step] at hp
-  | publish now => simp [step, publish] at hp; subst hp; rfl
+  | publish now => simp only [step] at hp; rw [tryPublish_mem s now p hp]; rfl
   | setComplete => simp [step] at hp
   | tstart t now =>
     simp only [step, tstart] at hp
     split at hp
     · cases hm : s.cfg.mode with
-      | beingTransferred => simp [hm, publish] at hp; subst hp; simp [instanceAt]
+      | beingTransferred => simp only [hm] at hp; rw [tryPublish_mem _ now p hp]; rfl
       | fullFdt => simp [hm] at hp
     · simp at hp
   | tdone t now => simp [step] at hp
   | poll now =>
     simp only [step, poll] at hp
     by_cases h : needRepublish s now = true
-    · simp only [h, if_true, List.mem_singleton] at hp
-      subst hp; rfl
+    · simp only [h, if_true] at hp
+      rw [tryPublish_mem s now p hp]; rfl
     · simp only [h] at hp
       simp at hp
 
@@ -190,7 +227,10 @@ theorem step_nopub_queue (s : State) (op : Op) (h : (step s op).2.1 = []) :
   | remove t =>
     refine ⟨?_, by intro t ht; cases ht⟩
     simp only [step, remove]; split <;> exact Nat.le_refl _
-  | publish now => simp [step] at h
+  | publish now =>
+    refine ⟨?_, by intro t ht; cases ht⟩
+    simp only [step] at h ⊢
+    rw [tryPublish_nopub s now h]; exact Nat.le_refl _
   | setComplete => exact ⟨Nat.le_refl _, by intro t ht; cases ht⟩
   | tstart t now =>
     refine ⟨?_, by intro t ht; cases ht⟩
@@ -199,14 +239,23 @@ theorem step_nopub_queue (s : State) (op : Op) (h : (step s op).2.1 = []) :
     · rename_i hany
       simp only [hany, if_true] at h
       cases hm : s.cfg.mode with
-      | beingTransferred => simp [hm] at h
+      | beingTransferred =>
+        simp only [hm] at h ⊢
+        rw [tryPublish_nopub _ now h]; exact Nat.le_refl _
       | fullFdt => simp
     · exact Nat.le_refl _
   | tdone t now => exact ⟨Nat.le_refl _, by intro t ht; cases ht⟩
   | poll now =>
     simp only [step, poll] at h ⊢
     by_cases hr : needRepublish s now = true
-    · simp [hr] at h
+    · simp only [hr, if_true] at h ⊢
+      rw [tryPublish_nopub s now h]
+      refine ⟨?_, ?_⟩
+      · show (popQueue s).queue.length ≤ _
+        rw [popQueue_length]; omega
+      · intro t _
+        show (popQueue s).queue.length = _
+        exact popQueue_length s
     · simp only [hr]
       refine ⟨?_, ?_⟩
       · show (popQueue s).queue.length ≤ _
@@ -218,7 +267,7 @@ theorem step_nopub_queue (s : State) (op : Op) (h : (step s op).2.1 = []) :
 /-- with `fdt_duration > 30 s`: once more polls of the idle FDT session come later than `last publish + duration - 5 s`
     than there are instances waiting in the queue, a successor has been published -/
 theorem supersede_core (s : State) (T : Nat) (hd : s.cfg.durationUs > 30000000) (hT : s.lastPublish = some T)
-    (ops : List Op) (h : s.queue.length < (ops.filter (isDuePoll s.cfg T)).length) : (run s ops).2 ≠ [] := by
+    (hadm : ∀ i, s.cfg.fdtFits i = true) (ops : List Op) (h : s.queue.length < (ops.filter (isDuePoll s.cfg T)).length) : (run s ops).2 ≠ [] := by
   induction ops generalizing s with
   | nil => simp at h
   | cons op ops ih =>
@@ -226,7 +275,7 @@ theorem supersede_core (s : State) (T : Nat) (hd : s.cfg.durationUs > 30000000) 
     rcases step_pubs s op with ⟨h0, _, hlp⟩ | ⟨q, hq, _⟩
     · rw [h0, List.nil_append]
       have hcfg := step_cfg s op
-      apply ih (step s op).1 (by rw [hcfg]; exact hd) (by rw [hlp]; exact hT)
+      apply ih (step s op).1 (by rw [hcfg]; exact hd) (by rw [hlp]; exact hT) (by rw [hcfg]; exact hadm)
       rw [hcfg]
       have hql := step_nopub_queue s op h0
       simp only [List.filter_cons] at h
@@ -240,7 +289,7 @@ theorem supersede_core (s : State) (T : Nat) (hd : s.cfg.durationUs > 30000000) 
             intro hq
             have hdue' : T + s.cfg.durationUs - 5000000 < t := by simpa [isDuePoll] using hdue
             have := needRepublish_due s T t hq hT hd hdue'
-            simp [step, poll, this] at h0
+            simp [step, poll, this, tryPublish, hadm] at h0
           have : s.queue.length ≠ 0 := by
             intro hz; exact hne (List.eq_nil_of_length_eq_zero hz)
           omega
@@ -424,14 +473,16 @@ theorem absFiles_append_live (g : List G) (x : G) (hx : x.live = true) : absFile
 theorem poll_files (s : State) (now : Nat) : (poll s now).1.files = s.files := by
   unfold poll
   by_cases h : needRepublish s now = true
-  · simp only [h, if_true]; rw [popQueue_files]; rfl
+  · simp only [h, if_true]; rw [popQueue_files]; exact tryPublish_files s now
   · simp only [h]; exact popQueue_files s
 
 theorem tstart_files (s : State) (t now : Nat) :
     (tstart s t now).1.files = if s.files.any (fun f => f.toi = t) then s.files.map (fStart t) else s.files := by
   unfold tstart
   split
-  · cases hm : s.cfg.mode <;> rfl
+  · cases hm : s.cfg.mode with
+    | beingTransferred => simp only; exact tryPublish_files _ now
+    | fullFdt => rfl
   · rfl
 
 /-- one step keeps the sender's `files` map and the spec's bookkeeping of the trace in step -/
@@ -455,7 +506,10 @@ theorem step_sim (s : State) (g : List G) (op : Op) (h : s.files.map viewF = abs
       rw [g_remove, ← h]
       exact m_remove t s.files
     · simpa [track1] using h
-  | publish now => simpa [step, track1, publish] using h
+  | publish now =>
+    simp only [step, track1]
+    rw [tryPublish_files]
+    exact h
   | setComplete => simpa [step, track1, setComplete] using h
   | tstart t now =>
     simp only [step, track1]
@@ -549,7 +603,10 @@ theorem step_otiInv (s : State) (op : Op) (h : OtiInv s) : OtiInv (step s op).1 
     split at hf
     · exact h f (List.mem_filter.mp hf).1
     · exact h f hf
-  | publish now => exact h f hf
+  | publish now =>
+    simp only [step] at hf
+    rw [tryPublish_files] at hf
+    exact h f hf
   | setComplete => exact h f hf
   | tstart t now =>
     simp only [step] at hf
@@ -776,46 +833,61 @@ theorem resolve_fileOti (d : Oti) (fd : FileDesc) (h : effectiveOti d fd.attrs =
     have hyes : fd.oti.enc = 6 ∨ fd.oti.enc = 1 := by rw [henc]; exact h61
     simp [hyes, getAttributes]
 
-/-- the TOI counter never decreases, and an `add` returns the counter value -/
-theorem step_nextToi (s : State) (op : Op) : s.nextToi ≤ (step s op).1.nextToi := by
+/-- the TOI counter: below the wrap of the configured width it just counts up -/
+theorem succToi_of_lt (b t : Nat) (h : t + 1 < 2^b) : succToi b t = t + 1 := by
+  unfold succToi
+  simp only [Nat.mod_eq_of_lt h]
+  simp
+
+theorem step_nextToi (s : State) (op : Op) :
+    (step s op).1.nextToi = s.nextToi ∨ (step s op).1.nextToi = succToi s.cfg.toiBits s.nextToi := by
   cases op with
-  | add a => simp only [step, add]; split; exact Nat.le_refl _; split <;> simp
-  | remove t => simp only [step, remove]; split <;> exact Nat.le_refl _
-  | publish now => exact Nat.le_refl _
-  | setComplete => exact Nat.le_refl _
-  | tstart t now => simp only [step, tstart]; split; (cases s.cfg.mode <;> exact Nat.le_refl _); exact Nat.le_refl _
-  | tdone t now => exact Nat.le_refl _
+  | add a => simp only [step, add]; split; exact .inl rfl; split <;> exact .inr rfl
+  | remove t => simp only [step, remove]; split <;> exact .inl rfl
+  | publish now => exact .inl (tryPublish_nextToi s now)
+  | setComplete => exact .inl rfl
+  | tstart t now =>
+    simp only [step, tstart]
+    split
+    · cases s.cfg.mode with
+      | beingTransferred => exact .inl (tryPublish_nextToi _ now)
+      | fullFdt => exact .inl rfl
+    · exact .inl rfl
+  | tdone t now => exact .inl rfl
   | poll now =>
     simp only [step, poll]
     split
-    · rw [popQueue_nextToi]; exact Nat.le_refl _
-    · rw [popQueue_nextToi]; exact Nat.le_refl _
+    · rw [popQueue_nextToi]; exact .inl (tryPublish_nextToi s now)
+    · rw [popQueue_nextToi]; exact .inl rfl
 
-theorem add_ok_lt (s : State) (a : ObjAttrs) (t : Nat) (h : (add s a).2 = .ok t) : t < (add s a).1.nextToi := by
+theorem add_ok_eq (s : State) (a : ObjAttrs) (t : Nat) (h : (add s a).2 = .ok t) :
+    t = s.nextToi ∧ (add s a).1.nextToi = succToi s.cfg.toiBits s.nextToi := by
   unfold add at h ⊢
   split
   · simp_all
   · split <;> simp_all
 
 theorem trace_toi_ge (s : State) (ops : List Op) (b : ObjAttrs) (t : Nat)
-    (h : (Op.add b, Res.added (.ok t)) ∈ trace s ops) : s.nextToi ≤ t := by
+    (h : (Op.add b, Res.added (.ok t)) ∈ trace s ops) (hnw : s.nextToi + ops.length < 2^s.cfg.toiBits) :
+    s.nextToi ≤ t := by
   induction ops generalizing s with
   | nil => simp [trace] at h
   | cons op ops ih =>
     simp only [trace, List.mem_cons] at h
+    simp only [List.length_cons] at hnw
     rcases h with h | h
     · simp only [Prod.mk.injEq] at h
       obtain ⟨hop, hres⟩ := h
       subst hop
-      simp only [step, add] at hres
-      split at hres
-      · cases hres
-      · split at hres
-        · cases hres
-        · cases hres
-        · simp only [Res.added.injEq, AddRes.ok.injEq] at hres
-          omega
-    · exact Nat.le_trans (step_nextToi s op) (ih _ h)
+      simp only [step, Res.added.injEq] at hres
+      have := (add_ok_eq s b t hres.symm).1
+      omega
+    · have hcfg := step_cfg s op
+      have hs : succToi s.cfg.toiBits s.nextToi = s.nextToi + 1 := succToi_of_lt _ _ (by omega)
+      have hn := step_nextToi s op
+      rw [hs] at hn
+      have := ih (step s op).1 h (by rw [hcfg]; rcases hn with hn | hn <;> omega)
+      rcases hn with hn | hn <;> omega
 
 /-! ### receiver side: expiry, cache directive, content encoding, OTI -/
 
@@ -952,12 +1024,22 @@ theorem popQueue_inst_files (s : State) (t : Nat) : (instanceAt (popQueue s) t).
   unfold instanceAt listedFiles
   simp only [popQueue_cfg, popQueue_files]
 
+theorem inst_files_congr (s s' : State) (t : Nat) (hc : s.cfg = s'.cfg) (hf : s.files = s'.files) :
+    (instanceAt s t).files = (instanceAt s' t).files := by
+  unfold instanceAt listedFiles
+  simp only [hc, hf]
+
+theorem tryPublish_inst (s : State) (now : Nat) (p : Pub) (hp : p ∈ (tryPublish s now).2) :
+    p.inst.files = (instanceAt (tryPublish s now).1 p.time).files := by
+  rw [tryPublish_mem s now p hp]
+  exact inst_files_congr _ _ now (tryPublish_cfg s now).symm (tryPublish_files s now).symm
+
 theorem step_pub_inst (s : State) (op : Op) (p : Pub) (hp : p ∈ (step s op).2.1) :
     p.inst.files = (instanceAt (step s op).1 p.time).files := by
   cases op with
   | add a => simp [step] at hp
   | remove t => simp [step] at hp
-  | publish now => simp [step, publish] at hp; subst hp; rfl
+  | publish now => simp only [step] at hp ⊢; exact tryPublish_inst s now p hp
   | setComplete => simp [step] at hp
   | tstart t now =>
     simp only [step, tstart] at hp ⊢
@@ -965,18 +1047,62 @@ theorem step_pub_inst (s : State) (op : Op) (p : Pub) (hp : p ∈ (step s op).2.
     · rename_i hany
       simp only [hany, if_true]
       cases hm : s.cfg.mode with
-      | beingTransferred => simp [hm, publish] at hp ⊢; subst hp; rfl
+      | beingTransferred => simp only [hm] at hp ⊢; exact tryPublish_inst _ now p hp
       | fullFdt => simp [hm] at hp
     · simp at hp
   | tdone t now => simp [step] at hp
   | poll now =>
     simp only [step, poll] at hp ⊢
     by_cases h : needRepublish s now = true
-    · simp only [h, if_true, List.mem_singleton] at hp ⊢
-      subst hp
+    · simp only [h, if_true] at hp ⊢
       rw [popQueue_inst_files]
-      rfl
+      exact tryPublish_inst s now p hp
     · simp [h] at hp
 
+/-! ### a refused FDT object -/
+
+theorem run_fdtid_nopub (s : State) (ops : List Op) (h : (run s ops).2 = []) : (run s ops).1.fdtid = s.fdtid := by
+  induction ops generalizing s with
+  | nil => rfl
+  | cons op ops ih =>
+    simp only [run] at h ⊢
+    have h1 : (step s op).2.1 = [] := (List.append_eq_nil_iff.mp h).1
+    have h2 := (List.append_eq_nil_iff.mp h).2
+    rw [ih _ h2]
+    rcases step_pubs s op with ⟨_, hid, _⟩ | ⟨q, hq, _⟩
+    · exact hid
+    · rw [hq] at h1; cases h1
+
+
+/-- when the FDT object is never admitted, nothing is ever published: no id is consumed, `last_publish` stays unset -/
+theorem run_never_admitted (s : State) (hadm : ∀ i, s.cfg.fdtFits i = false) (ops : List Op) : (run s ops).2 = [] := by
+  induction ops generalizing s with
+  | nil => rfl
+  | cons op ops ih =>
+    simp only [run]
+    have hcfg := step_cfg s op
+    rw [ih (step s op).1 (by rw [hcfg]; exact hadm), List.append_nil]
+    have htp : ∀ s' : State, s'.cfg = s.cfg → ∀ now, (tryPublish s' now).2 = [] := by
+      intro s' hc now
+      unfold tryPublish
+      rw [hc, hadm]; rfl
+    cases op with
+    | add a => simp [step]
+    | remove t => simp [step]
+    | publish now => simp only [step]; exact htp s rfl now
+    | setComplete => simp [step]
+    | tstart t now =>
+      simp only [step, tstart]
+      split
+      · cases hm : s.cfg.mode with
+        | beingTransferred => exact htp { s with files := s.files.map (fStart t) } rfl now
+        | fullFdt => rfl
+      · rfl
+    | tdone t now => simp [step]
+    | poll now =>
+      simp only [step, poll]
+      split
+      · exact htp s rfl now
+      · rfl
 
 end Flute.Lemmas.FdtAbs
